@@ -449,7 +449,7 @@ def nontrivial_kernel(line, ans):
     if k == "ccp": return ans.startswith("bind") or ans != "stmt " + " ".join(line.split()[1:])
     if k == "ivloop": return ans.startswith("out ") and not ans.startswith("out - ")
     if k == "srloop": return ans.startswith("out ") and ans != "out -"
-    if k in ("licm", "cse"): return ans != "hoisted -"
+    if k in ("licm", "cse", "licmk", "csek"): return ans != "hoisted -"
     if k == "inl": return " m:" in ans
     if k == "lvnw": return True
     if k == "ivuse": return True
@@ -900,6 +900,12 @@ def pp_stmts(ss):
             out.append(f"if {s[1]} {{ {pp_stmts(s[2])} }} {{ {pp_stmts(s[3])} }} {len(s[4])} {fas}".rstrip())
         elif k == "sif": out.append(f"sif {s[1]} {s[2]} {{ {pp_stmts(s[3])} }}")
         elif k == "brk": out.append(f"brk {s[1]}")
+        elif k == "struct": out.append(f"struct {s[1]} {len(s[2])} {' '.join(s[2])}".rstrip())
+        elif k == "idx": out.append(f"idx {s[1]} {s[2]} {s[3]}")
+        elif k == "isp": out.append(f"isp {s[1]} {s[2]}")
+        elif k == "cast": out.append(f"cast {s[1]} {s[2]}")
+        elif k == "clo": out.append(f"clo {s[1]} {s[2]} {s[3]}")
+        elif k == "icall": out.append(f"icall {s[1]} {len(s[2])} {' '.join(s[2])} {s[3]}".replace("  ", " "))
         elif k == "while":
             lvs = " ".join(f"{n} {a} {b}" for n, a, b in s[1])
             out.append(f"while {len(s[1])} {lvs} {{ {pp_stmts(s[2])} }} {s[3] or '_'}")
@@ -1073,6 +1079,177 @@ def gen_source_e2e(rng):
     return "class Main {\n" + walk + "\n" + second + "\n" + helper + "\n" + main + "}\n"
 
 
+def gen_source_rich_nostr(rng):
+    """the same family without string literals (for the harness MIR interpreter, which models strings
+    only as Str.fromInt(x) fed to Process.println)"""
+    t = gen_source_rich(rng)
+    t = t.replace('let start = "0".toInt();', "let start = 0;")
+    t = re.sub(r'let k = "(\d+)".toInt\(\);', r"let k = \1;", t)
+    t = t.replace('    Process.println("done")\n', "    {  }\n")
+    return t
+
+
+def gen_source_rich(rng, strings=True):
+    """Deterministic family (structure fixed, constants vary): loops whose bodies contain every MIR
+    statement kind the optimiser dispatches on — struct allocation and field reads (StructInit,
+    IndexedAccess; non-escaping structs for scalar replacement; the same field read in both branches
+    for CSE), enum construction and matching (IsPointer, Cast, LateInit), closures created and called
+    in the loop (ClosureInit, indirect calls), boolean if/else values (CCP's 1/0 and 0/1 final
+    assignments), a loop that leaves in its first iteration, generics, unused results."""
+    r = rng
+    m, c, n1, n2, n3 = r.range(2, 4), r.range(0, 3), r.range(3, 6), r.range(4, 7), r.range(2, 5)
+    return f"""class Pair(val a: int, val b: int) {{
+  method sum(): int = this.a + this.b
+
+  method swap(): Pair = Pair.init(this.b, this.a)
+}}
+
+class Box<T>(val v: T) {{
+  method get(): T = this.v
+}}
+
+class Opt(Some(int), None(unit)) {{
+  function of(x: int): Opt = if x % 2 == 0 {{ Opt.Some(x) }} else {{ Opt.None({{  }}) }}
+
+  method getOr(d: int): int =
+    match this {{
+      Some(v) -> v,
+      None(_) -> d,
+    }}
+}}
+
+class Color(Red, Green, Custom(int, int)) {{
+  function of(x: int): Color =
+    if x % 3 == 0 {{ Color.Red() }} else {{ if x % 3 == 1 {{ Color.Green() }} else {{ Color.Custom(x, x + {c}) }} }}
+
+  method weight(): int =
+    match this {{
+      Red -> 1,
+      Green -> 2,
+      Custom(a, b) -> a * b,
+    }}
+
+  method isRed(): bool =
+    match this {{
+      Red -> true,
+      _ -> false,
+    }}
+}}
+
+class Wrap(Only(Pair), Nothing) {{
+  method total(): int =
+    match this {{
+      Only(p) -> p.sum(),
+      Nothing -> 0 - 1,
+    }}
+}}
+
+class Main {{
+  function colors(i: int, n: int, prev: Color, acc: int): int =
+    if i >= n {{
+      acc + prev.weight()
+    }} else {{
+      let col = Color.of(i);
+      let w = if i % 2 == 0 {{ col.weight() + prev.weight() }} else {{ col.weight() - prev.weight() }};
+      let wr = if i % 2 == 0 {{ Wrap.Only(Pair.init(i, w)) }} else {{ Wrap.Nothing() }};
+      let tmp = Pair.init(i, w);
+      let z = tmp.a + tmp.b;
+      let dbl = col.weight() * col.weight();
+      let nb = !(i > 3);
+      let redBonus = if col.isRed() && nb {{ 40 }} else {{ 0 }};
+      let _ = Process.println(Str.fromInt(w + wr.total() + z + dbl + redBonus + Main.blk(i)));
+      Main.colors(i + 1, n, col, acc + w)
+    }}
+
+  function structs(i: int, n: int, base: Pair, acc: int): int =
+    if i >= n {{
+      acc
+    }} else {{
+      let p = Pair.init(i, i * {m} + {c});
+      let q = if i % 2 == 0 {{ Pair.init(base.a, i) }} else {{ Pair.init(base.a, i + 1) }};
+      let w = p.swap();
+      let bx = Box.init(i + {c});
+      let np = Pair.init(i + 1, acc);
+      let viaFields = np.a * 2 + np.b + base.b;
+      let _ = Process.println(Str.fromInt(p.sum() + q.a + base.b + w.a + bx.get() + viaFields));
+      let _ = Pair.init(acc, acc);
+      Main.structs(i + 1, n, base, acc + p.b + q.b)
+    }}
+
+  function escape(i: int, n: int, last: Pair): Pair =
+    if i >= n {{ last }} else {{ Main.escape(i + 1, n, Pair.init(last.b, last.a + i)) }}
+
+  function enums(i: int, n: int, acc: int): int =
+    if i >= n {{
+      acc
+    }} else {{
+      let o = Opt.of(i);
+      let none = Opt.None({{  }});
+      let big = i > 2;
+      let flag = if big {{ 1 }} else {{ 0 }};
+      let nflag = if big {{ 0 }} else {{ 1 }};
+      let isBig = if big {{ true }} else {{ false }};
+      let notBig = if big {{ false }} else {{ true }};
+      let extra = if isBig && !notBig {{ 5 }} else {{ 6 }};
+      let _ = Process.println(Str.fromInt(o.getOr(0 - 1) + flag * 10 + nflag * 100 + none.getOr({c}) + extra));
+      Main.enums(i + 1, n, acc + o.getOr(7))
+    }}
+
+  function walkOpt(o: Opt, i: int, acc: int): int =
+    match o {{
+      None(_) -> acc,
+      Some(v) -> if i >= {n3} {{ acc + v }} else {{ Main.walkOpt(Opt.of(i + v), i + 1, acc + v) }},
+    }}
+
+  function closures(i: int, n: int, k: int, acc: int): int =
+    if i >= n {{
+      acc
+    }} else {{
+      let f = (x: int) -> x * k + 1;
+      let g = (x: int) -> x + i;
+      let h = (x: int) -> x + {m};
+      let made = Main.mk(i);
+      let _ = Process.println(Str.fromInt(f(i) + g(2) + h(i) + Main.app(made, 3) + Main.app(f, i)));
+      Main.closures(i + 1, n, k, acc + f(g(i)))
+    }}
+
+  function once(i: int, acc: int): int = if i >= 0 {{ acc + i }} else {{ Main.once(i + 1, acc) }}
+
+  function mk(k: int): (int) -> int = (x: int) -> x + k
+
+  function app(f: (int) -> int, x: int): int = f(x)
+
+  function blk(x: int): int = {{
+    let y = {{
+      let z = x + 1;
+      z * 2
+    }};
+    y + 1
+  }}
+
+  function hp(x: int): int = x + 1
+
+  function big(x: int): int = {{
+    let a0 = Main.hp(x);\n    let a1 = Main.hp(a0);\n    let a2 = Main.hp(a1);\n    let a3 = Main.hp(a2);\n    let a4 = Main.hp(a3);\n    let a5 = Main.hp(a4);\n    let a6 = Main.hp(a5);\n    let a7 = Main.hp(a6);\n    let a8 = Main.hp(a7);\n    let a9 = Main.hp(a8);\n    let a10 = Main.hp(a9);\n    let a11 = Main.hp(a10);\n    let a12 = Main.hp(a11);\n    let a13 = Main.hp(a12);\n    let a14 = Main.hp(a13);\n    let a15 = Main.hp(a14);\n    let a16 = Main.hp(a15);\n    let a17 = Main.hp(a16);\n    let a18 = Main.hp(a17);\n    let a19 = Main.hp(a18);\n    let a20 = Main.hp(a19);\n    let a21 = Main.hp(a20);\n    let a22 = Main.hp(a21);\n    let a23 = Main.hp(a22);\n    let a24 = Main.hp(a23);\n    let a25 = Main.hp(a24);\n    let a26 = Main.hp(a25);\n    let a27 = Main.hp(a26);\n    let a28 = Main.hp(a27);\n    let a29 = Main.hp(a28);\n    let a30 = Main.hp(a29);\n    let a31 = Main.hp(a30);\n    let a32 = Main.hp(a31);\n    let a33 = Main.hp(a32);\n    let a34 = Main.hp(a33);\n    let a35 = Main.hp(a34);\n    let a36 = Main.hp(a35);\n    let a37 = Main.hp(a36);\n    let a38 = Main.hp(a37);\n    let a39 = Main.hp(a38);\n    let a40 = Main.hp(a39);\n    let a41 = Main.hp(a40);\n    let a42 = Main.hp(a41);\n    let a43 = Main.hp(a42);\n    let a44 = Main.hp(a43);\n    let a45 = Main.hp(a44);\n    let a46 = Main.hp(a45);\n    let a47 = Main.hp(a46);\n    let a48 = Main.hp(a47);\n    let a49 = Main.hp(a48);\n    let a50 = Main.hp(a49);\n    let a51 = Main.hp(a50);\n    let a52 = Main.hp(a51);\n    let a53 = Main.hp(a52);\n    let a54 = Main.hp(a53);\n    let a55 = Main.hp(a54);\n    let a56 = Main.hp(a55);\n    let a57 = Main.hp(a56);\n    let a58 = Main.hp(a57);\n    let a59 = Main.hp(a58);\n    let a60 = Main.hp(a59);\n    let a61 = Main.hp(a60);\n    let a62 = Main.hp(a61);\n    let a63 = Main.hp(a62);\n    let a64 = Main.hp(a63);\n    let a65 = Main.hp(a64);\n    let a66 = Main.hp(a65);\n    let a67 = Main.hp(a66);\n    let a68 = Main.hp(a67);\n    let a69 = Main.hp(a68);\n    let a70 = Main.hp(a69);\n    let a71 = Main.hp(a70);\n    let a72 = Main.hp(a71);\n    let a73 = Main.hp(a72);\n    let a74 = Main.hp(a73);\n    let a75 = Main.hp(a74);\n    let a76 = Main.hp(a75);\n    let a77 = Main.hp(a76);\n    let a78 = Main.hp(a77);\n    let a79 = Main.hp(a78);\n    let a80 = Main.hp(a79);\n    let a81 = Main.hp(a80);\n    let a82 = Main.hp(a81);\n    let a83 = Main.hp(a82);\n    let a84 = Main.hp(a83);\n    let a85 = Main.hp(a84);\n    let a86 = Main.hp(a85);\n    let a87 = Main.hp(a86);\n    let a88 = Main.hp(a87);\n    let a89 = Main.hp(a88);\n    let a90 = Main.hp(a89);\n    let a91 = Main.hp(a90);\n    let a92 = Main.hp(a91);\n    let a93 = Main.hp(a92);\n    let a94 = Main.hp(a93);\n    let a95 = Main.hp(a94);\n    let a96 = Main.hp(a95);\n    let a97 = Main.hp(a96);\n    let a98 = Main.hp(a97);\n    let a99 = Main.hp(a98);\n    let a100 = Main.hp(a99);\n    let a101 = Main.hp(a100);\n    let a102 = Main.hp(a101);\n    let a103 = Main.hp(a102);\n    a103
+  }}
+
+  function main(): unit = {{
+    let start = "0".toInt();
+    let k = "{m}".toInt();
+    let _ = Process.println(Str.fromInt(Main.structs(start, {n1}, Pair.init(k, 11), 0)));
+    let _ = Process.println(Str.fromInt(Main.escape(start, {n3}, Pair.init(1, k)).sum()));
+    let _ = Process.println(Str.fromInt(Main.enums(start, {n2}, 0)));
+    let _ = Process.println(Str.fromInt(Main.colors(start, {n2} + 2, Color.Green(), 0)));
+    let _ = Process.println(Str.fromInt(Main.walkOpt(Opt.Some(k), start, 0)));
+    let _ = Process.println(Str.fromInt(Main.closures(start, {n1}, k, 0)));
+    let _ = Process.println(Str.fromInt(Main.once(k, 5)));
+    let _ = Process.println(Str.fromInt(Main.big(k)));
+    Process.println("done")
+  }}
+}}
+"""
+
+
 def check_e2e(ctx, progs, cfgs, run_ts, label):
     lines = [f"e2e {','.join(map(str, cfgs))} {1 if run_ts else 0} | | {t.encode().hex()}" for t in progs]
     out = run_harness(lines)
@@ -1097,6 +1274,40 @@ def check_e2e(ctx, progs, cfgs, run_ts, label):
             ctx.violation("the optimised build behaves differently from the un-optimised build of the same program under Node: " + ans[:300],
                           {"protocol": "e2e", "label": label, "configs": cfgs, "source": text, "answer": ans})
     return stats
+
+
+def struct_family(rng):
+    """Deterministic family over the statement kinds with heap objects (StructInit, IndexedAccess,
+    ClosureInit, indirect calls, IsPointer, Cast, Not): non-escaping and escaping structs, closures
+    called locally / passed on, in straight-line code, branches and loops. Pointers are never printed
+    or returned (their numeric value is an artefact of the interpreter)."""
+    r = rng
+    a, b, c = r.range(1, 9), r.range(-4, 4), r.range(2, 5)
+    getter = f"fn f1 2 idx x p0 0 bin y add x p1 ret y end"
+    summer = f"fn f2 2 idx x p0 0 idx z p0 1 bin y add x z bin w mul y p1 ret w end"
+    progs = [
+        # non-escaping struct, both fields read
+        f"fn f0 2 struct s 2 p0 p1 idx a s 0 idx b s 1 bin c add a b call print 1 c _ ret c end",
+        # escaping struct (passed to a function) + local reads
+        f"fn f0 2 struct s 2 p0 {a} call f2 2 s {c} r idx a s 1 bin d add r a ret d end {summer}",
+        # closure created and called locally; IsPointer / Not / Cast in the same function
+        f"fn f0 2 struct s 2 p0 p1 clo g f1 s icall g 1 {a} r isp q s not nq q idx a s 1 cast cs a bin c add r cs bin d add c nq ret d end {getter}",
+        # closure passed on (escapes) and called by the callee
+        f"fn f0 2 struct s 2 p1 {b} clo g f1 s call f3 2 g p0 r ret r end {getter} fn f3 2 icall p0 1 p1 r bin t add r 1 ret t end",
+        # struct whose field is a field of another struct (substitution chains)
+        f"fn f0 2 struct s 2 p0 {a} idx a s 1 struct t 2 a p1 idx u t 0 idx v t 1 bin w mul u v call print 1 w _ ret w end",
+        # struct defined before a branch, read in both branches; escapes only in one of them
+        f"fn f0 2 struct s 2 p0 p1 bin c gt p0 {b} if c {{ idx a s 0 bin x add a 1 }} {{ call f2 2 s {c} y }} 1 f x y idx q s 1 bin z add f q ret z end {summer}",
+        # struct allocated in every iteration of a loop and read in the same iteration
+        f"fn f0 2 while 2 i 0 ni acc 0 nacc {{ bin cc ge i {c} sif cc 0 {{ brk acc }} bin t add i p0 struct s 2 i t idx a s 1 idx b s 0 bin d mul a {a} bin e add d b call print 1 e _ bin nacc add acc e bin ni add i 1 }} r ret r end",
+        # struct created before a loop and read inside it (pointer is loop invariant), plus a closure call per iteration
+        f"fn f0 2 struct s 2 p0 p1 clo g f1 s while 2 i 0 ni acc 0 nacc {{ bin cc ge i {c} sif cc 0 {{ brk acc }} idx a s 1 icall g 1 i r bin t add a r bin nacc add acc t bin ni add i 1 }} rr ret rr end {getter}",
+        # a struct stored into another struct (escapes through the field), read back through it
+        f"fn f0 2 struct s 2 p0 p1 struct t 2 s {a} idx u t 0 idx v u 1 idx w t 1 bin z add v w ret z end",
+        # struct as loop variable (escapes through the loop), swapped fields each iteration
+        f"fn f0 2 struct s 2 p0 p1 while 2 i 0 ni cur s nxt {{ bin cc ge i {c} sif cc 0 {{ brk cur }} idx a cur 0 idx b cur 1 bin b2 add b i struct nxt 2 b2 a bin ni add i 1 }} fin idx x fin 0 idx y fin 1 bin z sub x y ret z end",
+    ]
+    return [parse_prog_text(t) for t in progs]
 
 
 def check_sources(ctx, cases, label):
@@ -1172,6 +1383,12 @@ def well_formed(fns):
             k = s[0]
             if k == "bin": defined.add(s[1]); used |= {s[3], s[4]}
             elif k == "not": defined.add(s[1]); used.add(s[2])
+            elif k == "struct": defined.add(s[1]); used |= set(s[2])
+            elif k in ("idx", "isp", "cast"): defined.add(s[1]); used.add(s[2])
+            elif k == "clo": defined.add(s[1]); used.add(s[3])
+            elif k == "icall":
+                used |= set(s[2]) | {s[1]}
+                if s[3] != "_": defined.add(s[3])
             elif k == "call":
                 used |= set(s[2])
                 if s[3] != "_": defined.add(s[3])
@@ -1301,6 +1518,14 @@ def parse_prog_text(text):
             elif k == "sif":
                 c = nxt(); inv = nxt(); nxt(); a = stmts(); nxt(); out.append(["sif", c, inv, a])
             elif k == "brk": out.append(["brk", nxt()])
+            elif k == "struct":
+                nm = nxt(); n = int(nxt()); out.append(["struct", nm, [nxt() for _ in range(n)]])
+            elif k == "idx": out.append(["idx", nxt(), nxt(), nxt()])
+            elif k == "isp": out.append(["isp", nxt(), nxt()])
+            elif k == "cast": out.append(["cast", nxt(), nxt()])
+            elif k == "clo": out.append(["clo", nxt(), nxt(), nxt()])
+            elif k == "icall":
+                v = nxt(); n = int(nxt()); out.append(["icall", v, [nxt() for _ in range(n)], nxt()])
             elif k == "while":
                 n = int(nxt()); lvs = [[nxt(), nxt(), nxt()] for _ in range(n)]
                 nxt(); b = stmts(); nxt(); bc = nxt(); out.append(["while", lvs, b, None if bc == "_" else bc])
@@ -1573,7 +1798,22 @@ def run(ctx):
     lines = []
     if nk:
         # deterministic: every position at which a nested loop may mention the outer counter
-        lines += [f"ivuse {pos} {b}" for pos in ("none", "init", "loopvalue", "guard", "body", "print") for b in (3, 6)]
+        lines += [f"ivuse {pos} {b}" for pos in ("none", "init", "loopvalue", "guard", "body", "print", "ip", "nt", "ix", "cs", "la", "st", "cl") for b in (3, 6)]
+        # LICM: every statement kind with (a) an invariant operand, (b) the loop variable, (c) a name defined by a
+        # statement that stays in the loop (late init / call collector / final assignment / break collector / kept def)
+        kinds = {"ip": "ip v{x} {a}", "nt": "nt v{x} {a}", "cs": "cs v{x} {a}", "cl": "cl v{x} {a}", "ix": "ix v{x} {a} 1",
+                 "st": "st v{x} 2 {a} i3", "b": "b v{x} mul {a} i3", "bd": "b v{x} div i7 {a}", "bm": "b v{x} mod {a} i2"}
+        # CSE: every value kind it tracks, common / not common to the two branches, behind an effect
+        for a_, b_ in (("ix v2 v1 0", "ix v3 v1 0"), ("ix v2 v1 0", "ix v3 v1 1"), ("ip v2 v1", "ip v3 v1"), ("ip v2 v1", "ip v3 v0"),
+                       ("nt v2 v1", "nt v3 v1"), ("nt v2 v1", "ip v3 v1"), ("b v2 div v0 v1", "b v3 div v0 v1"), ("b v2 xor v0 v1", "b v3 xor v0 v1")):
+            lines.append(f"csek p v0 {a_} / p v1 {b_}")
+            lines.append(f"csek {a_} b v4 add v0 i1 / b v5 add v0 i1 {b_}")
+        stays = ["ld v3 la v3 v1", "cr v3 1 v1", "if 1 v3", "wh v3", "b v3 add v0 i1", "sf", "p v1", "k v1"]
+        for kname, pat in kinds.items():
+            for a in ("v1", "v0", "i4"):
+                lines.append("licmk " + pat.format(x=2, a=a))
+            for st_ in stays:
+                lines.append("licmk " + st_ + " " + pat.format(x=5, a="v3") + " " + pat.format(x=6, a="v1"))
     while len(lines) < nk:
         lines += gen_kernel_line(rng)
     kstats, kimpl = run_kernels(ctx, lines, f"generated seed={ctx.seed}") if lines else ({"nontrivial": set(), "known": 0}, [])
@@ -1590,7 +1830,7 @@ def run(ctx):
     for k in range(nprog):
         fns = gen_program(rng.fork(), frozenset(f["id"] for f in ctx.open_findings))
         args = gen_args(rng)
-        for p in FN_PASSES + ["inline"]:
+        for p in FN_PASSES + ["inline", "unused"]:
             cases.append((p, 31, args, fns))
         cfgs = [rng.below(32), 31] if ctx.quick else list(range(32))
         for c in cfgs:
@@ -1601,6 +1841,14 @@ def run(ctx):
             samples.append({"program": pp_program(fns), "args": args[:3]})
     for p, c, _, _ in cases:
         pass_hist[p] = pass_hist.get(p, 0) + 1
+    # deterministic: heap-object statement kinds through every pass that dispatches on them
+    if only in ("", "prog"):
+        sargs = [(3, 4), (0, 0), (-5, 7), (MAX, 2)]
+        for fns in struct_family(rng.fork()):
+            for p_ in ["sr", "ccp", "lvn", "cse", "dce", "loop", "inline", "unused"]:
+                cases.append((p_, 31, sargs, fns))
+            for c_ in (16, 31, 24, 0):
+                cases.append(("rounds", c_, sargs, fns)); cases.append(("all", c_, sargs, fns))
     pstats = {"changed": set(), "compared": 0, "traps": 0, "timeouts": 0, "lines": 0}
     B = 400
     for i in range(0, len(cases), B):
@@ -1614,10 +1862,16 @@ def run(ctx):
     avoid = frozenset(f["id"] for f in ctx.open_findings)
     nsrc = ctx.scale(120, 1500) if only in ("", "src") else 0
     scases, src_sample = [], None
+    if nsrc:
+        rich = gen_source_rich_nostr(rng.fork())
+        for p in ["ccp", "sr", "loop", "cse", "lvn", "dce", "inline", "unused"]:
+            scases.append((p, 31, rich))
+        for c in (31, 16, 24, 8, 0):
+            scases.append(("rounds", c, rich)); scases.append(("all", c, rich))
     for k in range(nsrc):
         text = gen_source(rng.fork(), avoid, nested=(k < 4 or k % 5 == 0))     # the first modules always contain the nested family
         src_sample = src_sample or text
-        for p in ["ccp", "loop", "cse", "lvn", "dce", "inline"]:
+        for p in ["ccp", "sr", "loop", "cse", "lvn", "dce", "inline"]:
             scases.append((p, 31, text))
         for c in ([rng.below(32), 31] if ctx.quick else [0, 4, 8, 12, 20, 27, 31, rng.below(32)]):
             scases.append(("rounds", c, text)); scases.append(("all", c, text))
@@ -1633,6 +1887,16 @@ def run(ctx):
     ne2e = (ctx.scale(6, 40) if only in ("", "e2e") else 0)
     estats = {"compared": 0, "programs": 0, "no_node": 0, "rejected": 0}
     e2e_sample = None
+    _rich_placeholder = None
+    # deterministic family first: every statement kind, each pass switched on alone and all together
+    for k in range((ctx.scale(2, 6) if only in ("", "e2e") else 0)):
+        if len(ctx.violations) >= 3:
+            break
+        text = gen_source_rich(rng.fork())
+        cfgs = ["real", 31, 16, 4, 2, 1, 8, 0] if ctx.quick else ["real"] + list(range(32))
+        st = check_e2e(ctx, [text], cfgs, run_ts=(k == 0), label="rich family")
+        for kk in estats:
+            estats[kk] += st[kk]
     for k in range(ne2e):
         if len(ctx.violations) >= 3:
             break
